@@ -5,7 +5,7 @@
    p = precision, s = scale, i = unscaled integer (the decimal's value is i / 10^s). *)
 From Coq Require Import ZArith List Bool QArith.
 Import ListNotations.
-From V Require Import Base.Tree Base.Bytes C16.Model C16.Spec C16.Digits C16.ProofsParse C16.ProofsString.
+From V Require Import Base.Tree Base.Bytes C16.Model C16.Spec C16.Digits C16.ProofsParse C16.ProofsString C16.ProofsRun.
 Open Scope Z_scope.
 
 (* (1) Round trip: for every precision >= 1 (in particular 1..38), every scale up to the precision and every
@@ -92,6 +92,12 @@ Proof. exact sanity_iff. Qed.
 Theorem C16_sanity_spec : forall p s, sanity p s = valid_ps p s.
 Proof. exact sanity_valid. Qed.
 
+(* (7) The executable specification predicate that judges the implementation's outputs on every run holds of the
+   model's own outputs for every input tree (also precision 0 and invalid pairs): given model = implementation on
+   a case, the case satisfies the specification. *)
+Theorem C16_spec_of_model : forall fn i, 1 <= fn <= 4 -> spec fn i (run fn i) = true.
+Proof. exact spec_run. Qed.
+
 (* non-vacuity and corner cases *)
 Example C16_ex_string : dec_string 5 2 (-12345) = [45; 49; 50; 51; 46; 52; 53]            (* "-123.45" *)
   /\ dec_string 5 0 5 = [53; 46; 48] /\ dec_string 5 5 (-5) = [45; 48; 46; 48; 48; 48; 48; 53]  (* "5.0", "-0.00005" *)
@@ -129,3 +135,4 @@ Print Assumptions C16_written_toofrac.
 Print Assumptions C16_two_points.
 Print Assumptions C16_sanity.
 Print Assumptions C16_sanity_spec.
+Print Assumptions C16_spec_of_model.
